@@ -20,9 +20,9 @@ GInit ==
             IN srv = [i \in 1..n |-> [sess |-> S(i), objs |-> ms[i]]]
   /\ base \in 0..(Len(srv) - 1)
   /\ arch = IF base = 0 THEN NoFile
-            ELSE [ex |-> TRUE, sess |-> srv[base].sess, serial |-> base, objs |-> srv[base].objs]
+            ELSE [ex |-> TRUE, sess |-> srv[base].sess, serial |-> base, lm |-> base, objs |-> srv[base].objs]
   /\ tmp = NoFile /\ pc = "idle" /\ target = 0 /\ di = 0 /\ ei = 0 /\ todo = {}
-  /\ reported = FALSE /\ kills = 0 /\ runs = 0
+  /\ reported = FALSE /\ ann = Len(srv) /\ kills = 0 /\ runs = 0
   /\ h = <<>>
 
 Step == RunStart \/ DeltaMark \/ DeltaApply \/ DeltaState \/ SnapObj \/ SnapState \/ SnapRemove \/ SnapRename
